@@ -37,7 +37,7 @@ FLOORS = {"quick": {"pipelines": 1500, "elements_checked": 5000, "packets_throug
                        "el_TwoRateTokenBucket": 4000, "el_SP": 2000, "el_WFQ": 2000, "el_VC": 2000, "el_DRR": 2000,
                        "el_RR": 2000, "el_WRR": 2000, "el_FlowDemux": 1000, "el_FIBDemux": 1000,
                        "el_SimplePacketSwitch": 1000, "el_FairPacketSwitch": 1000}}
-KEYS = tuple(FLOORS["quick"].keys())
+KEYS = tuple(FLOORS["quick"].keys()) + ("table_reconfigurations",)
 SINGLE = ["Port", "Wire", "TokenBucket", "TwoRateTokenBucket", "SP", "WFQ", "VC", "DRR", "RR", "WRR", "Port", "Wire"]
 FAN = ["FlowDemux", "FIBDemux", "SimplePacketSwitch", "FairPacketSwitch"]
 
@@ -104,6 +104,10 @@ def gen_case(rng, i):
             fan["rate"] = rng.choice([8000, 1e6])
         if k in ("FlowDemux", "FIBDemux"):
             fan["default"] = rng.random() < 0.4
+        if k in ("FIBDemux", "FairPacketSwitch") and rng.random() < 0.35:
+            # the table is replaced / edited in place while traffic flows
+            fan["reconf"] = {"t": rng.choice([0.3, 1.0, 2.5]), "how": rng.choice(["setter", "inplace"]),
+                             "fib": {f: rng.randrange(nout) for f in range(nflows) if rng.random() < 0.8}}
         fan["branches"] = [[gen_single(rng, nflows) for _ in range(rng.randint(0, 2))] for _ in range(nout + (1 if fan.get("default") else 0))]
     if not chain and not fan:
         chain = [gen_single(rng, nflows)]
@@ -203,6 +207,23 @@ def run_case(case, stats):
             for port, sh in zip(o.ports, shims):
                 port.out = sh
         net.tap_put(o, name)
+        if fan.get("reconf"):
+            rc = fan["reconf"]
+            rc["seq"] = None
+            live = o if k == "FIBDemux" else o.demux
+
+            def reconfigure(rc=rc, live=live):
+                yield env.timeout(rc["t"])
+                rc["seq"] = len(tape.ev)                 # packets entering with a larger action seq see the new table
+                new = {int(a): b for a, b in rc["fib"].items()}
+                if rc["how"] == "setter":
+                    live.fib = new
+                else:
+                    tbl = live.fib
+                    tbl.clear()
+                    tbl.update(new)
+            env.process(reconfigure())
+            stats["table_reconfigurations"] += 1
         e = Elem(name, k, o, fan)
         e.outs = [f"{name}>{b}" for b in range(len(branch_entries))]
         elems.append(e)
@@ -294,6 +315,8 @@ def run_case(case, stats):
                 bad(f"identifying-field-changed[{el.kind}]", "a packet's identifying fields changed on the way", {"fields": ch, "element": el.name})
                 return viol
             f = p.flow_id
+            if len(el.outs) > 1:
+                f = (f, o[4])          # a fan-out element: order is judged per output (a flow may be re-routed)
             if f in last_by_flow and in_pos[u] < last_by_flow[f]:
                 bad(f"flow-reordered[{el.kind}]", "packets of one flow left an element in another order than they entered",
                     {"element": el.name, "flow": f})
@@ -334,14 +357,22 @@ def run_case(case, stats):
             expect_out = 0
             noroute = 0
             per_out = {}
+            def table_at(seq):
+                rc = d.get("reconf")
+                if rc and rc.get("seq") is not None and seq >= rc["seq"]:
+                    return rc["fib"]
+                return d["fib"]
+            route_of = {}
             for x in ins:
                 f = net.pk.objs[x[5]].flow_id
                 if k == "FlowDemux" or k == "SimplePacketSwitch":
                     r = f if f < d["nout"] else ("default" if d.get("default") else None)
                 else:
-                    r = d["fib"].get(f, d["fib"].get(str(f)))
+                    tb = table_at(x[0])
+                    r = tb.get(f, tb.get(str(f)))
                     if r is None:
                         r = "default" if d.get("default") else None
+                route_of[x[5]] = r
                 if r is None:
                     noroute += 1
                 else:
@@ -362,13 +393,10 @@ def run_case(case, stats):
             for b, oname in enumerate(el.outs):
                 for o in outs_all.get(oname, []):
                     f = net.pk.objs[o[5]].flow_id
-                    if k in ("FlowDemux", "SimplePacketSwitch"):
-                        r = f if f < d["nout"] else "default"
-                    else:
-                        r = d["fib"].get(f, d["fib"].get(str(f), "default"))
+                    r = route_of.get(o[5])
                     rb = d["nout"] if r == "default" else r
                     if rb != b:
-                        bad(f"wrong-branch[{k}]", "a demux/switch sent a packet to an output other than the one its table names", {"flow": f, "got": b, "want": rb})
+                        bad(f"wrong-branch[{k}]" + ("[after-table-change]" if d.get("reconf") else ""), "a demux/switch sent a packet to an output other than the one its table names", {"flow": f, "got": b, "want": rb})
                         return viol
     # ---- generators
     for sdesc, g, shim, ad, sd in gens:
